@@ -461,7 +461,14 @@ def rule_r11(ctx, rid="C04.R11"):
             ctx.r.violation(rid, key_of(f, None, "completed-without-head"), "the parser can mark itself completed with neither a parsed head nor the empty mark (%s): stray line terminators are queued as a request, executed and answered" % g.describe_path(pth), f.loc(n.ast))
 
 
-RULES = [rule_r1, rule_r2, rule_r3, rule_r4, rule_r5, rule_r6, rule_r7, rule_r8, rule_r9, rule_r10, rule_r11]
+def rule_r12(ctx):
+    """Shared with C19.R4 (the interim response is appended to the LAST output buffer - the tail of the byte stream; anywhere else it lands inside an earlier response) and C09.R9 (a failure swallowed inside Task.service always ends the connection: otherwise the next pipelined response is written behind a truncated one)."""
+    from . import c09, c19
+    c19.rule_r4(ctx, rid="C04.R12")
+    c09.rule_r9(ctx, rid="C04.R12")
+
+
+RULES = [rule_r1, rule_r2, rule_r3, rule_r4, rule_r5, rule_r6, rule_r7, rule_r8, rule_r9, rule_r10, rule_r11, rule_r12]
 
 from ..selftest import M, T, V  # noqa: E402
 
